@@ -791,7 +791,7 @@ def ninja_part(chk, drv_asan):
 # ------------------------------------------------------------------ parts owned by other areas
 
 def other_parts(chk):
-    for modname, fn in (("props.c11", "deps_part"), ("props.c17lex", "lexer_part")):
+    for modname, fn in (("props.c11", "deps_part"), ("props.c17lex", "lexer_part"), ("props.ninjaparse", "parse_part")):
         try:
             mod = __import__(modname, fromlist=[fn])
             f = getattr(mod, fn)
